@@ -192,6 +192,9 @@ func (dsc *dataStoreCommand) setKey(keyName, str string, options bitflags, expir
 				return
 			}
 			argBytes = append(strBytes, argBytes...)
+
+			// the value is changed in place: the key keeps its deadline
+			expiration = time.Time(oldSk.expiresAt)
 		}
 
 	} else {
